@@ -12,6 +12,23 @@ NOT_APPLICABLE = {}
 HOOK_COMMITS = []
 
 CHECKS = {
+    "C11": {
+        "run": "^TestC11_",
+        "rule": ("sequential: cases = (form {ShareWithConfig with each of the 8 reset-flag combinations x connector, Share, ShareReplay, ShareReplayWithConfig, connectable with/without "
+                 "ResetOnDisconnect}, operation sequence over {Subscribe i, Unsubscribe i, SourceNext, SourceError, SourceComplete, Connect, Disconnect}, manual or cold synchronous source); "
+                 "non-trivial = a 1->0 transition, a terminal or a disconnect followed by a new subscriber/connect. Concurrent: cases = (config, number of simultaneous first subscribers, "
+                 "values, connector delay) repeated; all non-trivial. Distinct by descriptor hash."),
+        "quick": {"rapid": 100, "timeout": 300, "shards": 4},
+        "thorough": {"rapid": 2000, "timeout": 3000, "shards": 16},
+        "assumptions": COMMON_ASSUMPTIONS,
+        "technique": "model-based property testing: exhaustive + rapid event sequences against a statement-level model of executions; concurrent invariant checks under repetition",
+        "level_text": ("Exploration. After every step of every sequence (exhaustive to length 5/6, rapid to length 30) the number of upstream subscriptions made so far, the number "
+                       "live now (never above one) and every subscriber's log must equal a model written at the level of the statement: an execution is one connector subject plus "
+                       "one upstream subscription; join or start, discard on error/complete/refcount-zero as configured, replay rules of the connector kind; connectables: nothing "
+                       "before Connect, Connect while connected returns the same subscription, disconnect releases upstream and (optionally) installs a fresh subject. "
+                       "Concurrently arriving first subscribers must share one upstream subscription and see gap-free, ordered values."),
+        "level_note": "The concurrent part is statistical and checks invariants only (not the full model).",
+    },
     "C10": {
         "run": "^TestC10_",
         "rule": ("sequential: cases = (subject kind and buffer size, operation sequence over {Next v, Error, Complete, Subscribe i, Unsubscribe i}) enumerated exhaustively up to the "
